@@ -788,6 +788,10 @@ func (g *Gen) callCommon(in *ssa.Call, cc *ssa.CallCommon, guard string) {
 	// ordinal of this call site (for assert-at anchors)
 	g.atAnchor(fmt.Sprintf("call %s#%d", lastName(key), fr.callOrdinal(cc, key)), env)
 	g.atAnchor(fmt.Sprintf("call %s", lastName(key)), env)
+	if callee == nil && !cc.IsInvoke() {
+		// call through a function VALUE (table entry, field, variable): calling nil panics
+		g.safety("nilcall", fmt.Sprintf("(not (= %s 0))", g.term(cc.Value)), "called function value is not nil")
+	}
 	if ct == nil {
 		if isIgnoredCall(callee, cc) {
 			return
